@@ -1,7 +1,7 @@
 (** C07 — backend concurrency contract of the File interface (path-tree locking).
     Only statements, each closed by [exact] of a lemma of coq/Locks, with Print Assumptions. *)
 From Coq Require Import String List Bool.
-From P9V Require Import Locks.Sym Locks.Locks Locks.LockProofs gen.LockGen Locks.Tables Locks.TableProofs Locks.OpenOnce.
+From P9V Require Import Locks.Sym Locks.Locks Locks.LockProofs gen.LockGen Locks.Tables Locks.TableProofs Locks.OpenOnce Locks.NodeId.
 Import ListNotations.
 
 (** Generic mutual exclusion: any number of threads, every interleaving, any plans that keep
@@ -109,6 +109,26 @@ Proof. exact canonical_respects. Qed.
 Theorem C07_new_refs_ok : forall st, In st sites -> new_ref_ok st = true.
 Proof. exact new_refs_ok. Qed.
 Print Assumptions C07_new_refs_ok.
+
+(** ... and the sources of path nodes, read from the struct declarations and from every place a pathNode is
+    constructed: one tree root per Server (not per connection), fidRef.pathNode, pathNode.childNodes; nodes are made
+    only by NewServer and by pathNodeFor, whose lookup-or-make is one childMu write section (re-check + store). *)
+Theorem C07_node_sources : node_identity_ok = true.
+Proof. exact node_identity. Qed.
+Print Assumptions C07_node_sources.
+
+(** With those sources (model Locks/NodeId.v: one tree, pathNodeFor = lookup-or-make): two walks of one path from
+    one node — by any two requests on any connections, with any other walks before, between and after — end on
+    the SAME path node, as long as no entry is removed in between (unlink/rename, which hold the parent's opMu.W /
+    renameMu.W); and different (directory, name) pairs get different nodes. *)
+Theorem C07_same_path_same_node : forall t n names ws,
+  let '(t1, c) := walk t n names in walk (walks t1 ws) n names = (walks t1 ws, c).
+Proof. exact same_path_same_node. Qed.
+Print Assumptions C07_same_path_same_node.
+Theorem C07_distinct_names_distinct_nodes : forall t p x q y, wf t -> (p, x) <> (q, y) ->
+  let '(t1, c) := node_for t p x in snd (node_for t1 q y) <> c.
+Proof. exact distinct_names_distinct_nodes. Qed.
+Print Assumptions C07_distinct_names_distinct_nodes.
 
 (** The documented classes are pinned: the table read from the doc comments of file.go equals the
     hand-written one (editing or deleting a "concurrency guarantee" sentence re-opens this obligation). *)
